@@ -67,17 +67,22 @@ PROPS = {
     ),
     'C12': dict(
         level='proof',
+        verus_units=['broker_handlers_calls'],
         kani=[dict(package='aldrin-broker', injections=[KANI_BROKER_ACC], jobs=2),
               dict(package='aldrin-core', injections=[KANI_CORE_CONV], jobs=4)],
-        trusted_base=TB_KANI,
+        trusted_base=TB_KANI + TB_VERUS + ['derived PartialOrd of ProtocolVersion = lexicographic order (assumed in the Verus '
+                                           'unit; the real derive is exercised for all values by C12.epoch_mapping)'],
         assumptions=['convert(): the current->legacy case is excluded from the identity-rule harness (covered by C13)'],
         undecided_clauses=[
-            'per-handler version gates and down-translation of calls/aborts/subscribe-all (broker.rs handlers)',
+            'version gates other than call_function2 / abort_function_call / the AbortFunctionCall send in abort_call '
+            '(the other gated handlers use ref patterns), down-translation in call_function_impl / create_service2',
             'client-side check of the negotiated version (inline in an async fn of aldrin/src/client_builder.rs)',
             'cross-version payload traffic (C13 decides the converter on bounded shapes only)',
         ],
         explanation='handshake acceptance and negotiated version = min(client, 1.20) for all (major, minor, connect '
-                    'kind); epoch of every version; conversion identity rule for all version pairs',
+                    'kind); epoch of every version; conversion identity rule for all version pairs; handler level: a '
+                    'connection below 1.19 / 1.16 using CallFunction2 / AbortFunctionCall is closed, and every send in the '
+                    'verified handlers satisfies "message kind exists in the receiver\'s negotiated version" (precondition of send)',
     ),
     'C13': dict(
         level='proof',
